@@ -151,6 +151,9 @@ def handle (op : String) (j : Json) : Except String Json := do
       Json.mkObj [("name", n.name),
         ("types", exceptIds (linearizeDataTypes g n.name n.dataTypes)),
         ("aliases", exceptIds (linearizeAliases g n.name n.aliases)),
+        ("hyps_ok", Json.bool (ownListB g n.name n.dataTypes && ownListB g n.name n.aliases
+          && linkClosedB g n.name parentLink n.dataTypes && linkClosedB g n.name (aliasLink g) n.aliases
+          && n.dataTypes.eraseDups.length == n.dataTypes.length && n.aliases.eraseDups.length == n.aliases.length)),
         ("norm_routes", jids nn.routes), ("norm_types", jids nn.dataTypes), ("norm_aliases", jids nn.aliases)]
     pure (ok [("namespaces", Json.arr per.toArray),
               ("norm_namespaces", jids ((normalize g).namespaces.map (·.name)))])
